@@ -29,6 +29,7 @@ def outStr : Out → String
   | .sched s => schedStr s
   | .recv none s => "rej " ++ schedStr s
   | .recv (some a) s => s!"acc {a} " ++ schedStr s
+  | .scan v f => s!"v={boolStr v} f={boolStr f}"
 
 /-- addresses are cut to 48 bits + flag as `make_addr` of the harness does -/
 def normAddr (a : Nat) : Nat := a % (2 ^ 49)
@@ -52,6 +53,8 @@ def parseOp : List String → Option Op
   | ["filter", b] => (parseBool b).map Op.filter
   | ["wladd", a] => a.toNat?.map fun v => Op.wladd (normAddr v)
   | ["wlremove", a] => a.toNat?.map fun v => Op.wlremove (normAddr v)
+  | ["scanfilter", b] => (parseBool b).map Op.scanfilter
+  | ["scanreq", h] => (parseHex h).map Op.scanreq
   | ["recv", h] => (parseHex h).map Op.recv
   | ["recvfull", h] => (parseHex h).bind fun bs => if bs.length < 2 then none else some (Op.recv (pad36 bs))
   | _ => none
